@@ -122,7 +122,6 @@ Theorem C13_tag_schema_add_then_listed :
          (main other : str) (user_mts : list str) (limit : N) (skip_gc : bool)
          (index_of : str -> option (list desc)) (p : profile),
     (forall c, valid_digest (H c) = true) ->
-    (forall l, index_of (gen_index l) = Some l) ->
     (forall l, subject_of (gen_index l) = Some None) ->
     parse_mt mt_index = Some mt_index ->
     forall g n rst subj old r,
@@ -132,11 +131,12 @@ Theorem C13_tag_schema_add_then_listed :
       let tag := ref_tag (d_dg subj) in
       resolve_ref main tag = Some tag -> valid_digest tag = false ->
       p_clen p = true \/ p_dighdr p = true ->
-      index_state g tag old -> NoDup (map fst (g_tags g)) ->
+      index_state g tag old -> (match old with Some (_, l0) => index_of (gen_index l0) = Some l0 | None => True end) ->
+      NoDup (map fst (g_tags g)) ->
       let l := match old with Some (_, l) => l | None => [] end in
       let upd := clean_refs [] l ++ [r] in
       existsb (RemoteClient.desc_eqb r) (clean_refs [] l) = false ->
-      len (gen_index upd) <= limit ->
+      len (gen_index upd) <= limit -> index_of (gen_index upd) = Some upd ->
       skip_gc = true \/ (forall od l0, old = Some (od, l0) -> od <> H (gen_index upd)) ->
       exists g' n' t,
         update_referrers_index H parse_mt main user_mts limit skip_gc index_of (reg * N)
@@ -158,7 +158,6 @@ Theorem C13_tag_schema_remove_then_absent :
          (main other : str) (user_mts : list str) (limit : N) (skip_gc : bool)
          (index_of : str -> option (list desc)) (p : profile),
     (forall c, valid_digest (H c) = true) ->
-    (forall l, index_of (gen_index l) = Some l) ->
     (forall l, subject_of (gen_index l) = Some None) ->
     parse_mt mt_index = Some mt_index ->
     forall g n rst subj od l r,
@@ -168,10 +167,11 @@ Theorem C13_tag_schema_remove_then_absent :
       let tag := ref_tag (d_dg subj) in
       resolve_ref main tag = Some tag -> valid_digest tag = false ->
       p_clen p = true \/ p_dighdr p = true ->
-      index_state g tag (Some (od, l)) -> NoDup (map fst (g_tags g)) ->
+      index_state g tag (Some (od, l)) -> index_of (gen_index l) = Some l ->
+      NoDup (map fst (g_tags g)) ->
       let upd := filter (fun x => negb (RemoteClient.desc_eqb r x)) (clean_refs [] l) in
       existsb (RemoteClient.desc_eqb r) (clean_refs [] l) = true ->
-      len (gen_index upd) <= limit ->
+      len (gen_index upd) <= limit -> index_of (gen_index upd) = Some upd ->
       skip_gc = true \/ od <> H (gen_index upd) ->
       exists g' n' t,
         update_referrers_index H parse_mt main user_mts limit skip_gc index_of (reg * N)
@@ -196,7 +196,6 @@ Theorem C13_push_subject_then_predecessors :
          (main other : str) (user_mts : list str) (limit : N) (skip_gc : bool)
          (index_of : str -> option (list desc)) (p : profile),
     (forall c, valid_digest (H c) = true) ->
-    (forall l, index_of (gen_index l) = Some l) ->
     (forall l, subject_of (gen_index l) = Some None) ->
     parse_mt mt_index = Some mt_index ->
     forall g n rst d c sj old,
@@ -208,12 +207,13 @@ Theorem C13_push_subject_then_predecessors :
       let tag := ref_tag (d_dg sj) in
       resolve_ref main tag = Some tag -> valid_digest tag = false ->
       p_clen p = true \/ p_dighdr p = true ->
-      index_state g tag old -> NoDup (map fst (g_tags g)) ->
+      index_state g tag old -> (match old with Some (_, l0) => index_of (gen_index l0) = Some l0 | None => True end) ->
+      NoDup (map fst (g_tags g)) ->
       (forall od l0, old = Some (od, l0) -> od <> d_dg d) ->
       let l := match old with Some (_, l) => l | None => [] end in
       let upd := clean_refs [] l ++ [d] in
       existsb (RemoteClient.desc_eqb d) (clean_refs [] l) = false ->
-      len (gen_index upd) <= limit ->
+      len (gen_index upd) <= limit -> index_of (gen_index upd) = Some upd ->
       skip_gc = true \/ (forall od l0, old = Some (od, l0) -> od <> H (gen_index upd)) ->
       exists g' n' t,
         run_op H parse_mt subject_of main other user_mts limit skip_gc index_of (reg * N)
@@ -237,7 +237,6 @@ Theorem C13_delete_subject_then_predecessors :
          (main other : str) (user_mts : list str) (limit : N) (skip_gc : bool)
          (index_of : str -> option (list desc)) (p : profile),
     (forall c, valid_digest (H c) = true) ->
-    (forall l, index_of (gen_index l) = Some l) ->
     (forall l, subject_of (gen_index l) = Some None) ->
     parse_mt mt_index = Some mt_index ->
     forall g n rst d c sj od l,
@@ -248,11 +247,12 @@ Theorem C13_delete_subject_then_predecessors :
       let tag := ref_tag (d_dg sj) in
       resolve_ref main tag = Some tag -> valid_digest tag = false ->
       p_clen p = true \/ p_dighdr p = true ->
-      index_state g tag (Some (od, l)) -> NoDup (map fst (g_tags g)) ->
+      index_state g tag (Some (od, l)) -> index_of (gen_index l) = Some l ->
+      NoDup (map fst (g_tags g)) ->
       od <> d_dg d ->
       let upd := filter (fun x => negb (RemoteClient.desc_eqb d x)) (clean_refs [] l) in
       existsb (RemoteClient.desc_eqb d) (clean_refs [] l) = true ->
-      len (gen_index upd) <= limit ->
+      len (gen_index upd) <= limit -> index_of (gen_index upd) = Some upd ->
       H (gen_index upd) <> d_dg d ->
       skip_gc = true \/ od <> H (gen_index upd) ->
       exists g' n' t,
@@ -267,6 +267,25 @@ Theorem C13_delete_subject_then_predecessors :
 Proof. exact delete_subject_then_predecessors. Qed.
 Print Assumptions C13_delete_subject_then_predecessors.
 
+(* the hypotheses of C13_push_subject_then_predecessors are satisfiable: instantiated on the empty
+   registry without the API (every hypothesis discharged by computation) *)
+Example C13_push_subject_satisfiable :
+  exists g' n' t,
+    run_op w_H (fun s => Some s) sat_subject (b "app") (b "src") [] w_limit false sat_index_of (reg * N)
+           (cexch w_H sat_subject (b "app") (b "src") ts_profile None) (reg0 [], 0) RSUnknown (OPush sat_d sat_c)
+    = ((g', n'), RSUnsupported, t, ROk) /\
+    minv w_H (fun s => Some s) w_limit g' /\
+    index_state g' (ref_tag zero_digest) (Some (w_H (gen_index [sat_d]), [sat_d])) /\
+    exists n'' t',
+      run_op w_H (fun s => Some s) sat_subject (b "app") (b "src") [] w_limit false sat_index_of (reg * N)
+             (cexch w_H sat_subject (b "app") (b "src") ts_profile None) (g', n') RSUnsupported (OPreds sat_sj)
+      = ((g', n''), RSUnsupported, t', RDescs [sat_d]).
+Proof. exact push_subject_satisfiable. Qed.
+
+(* (JSON decoding is the parameter index_of: the theorems above ask it to invert gen_index on the two
+   indexes involved -- the one read and the one written --, not on all lists: gen_index does not
+   escape, a hypothesis for ALL descriptor lists would be unsatisfiable.  The Example below
+   instantiates it.) *)
 (* ... end to end on a concrete registry without the API: Push of a manifest with a subject makes
    Predecessors list it and the referrers tag resolve to the generated index (the JSON the
    client writes is the last conjunct); Delete removes both again *)
